@@ -167,10 +167,46 @@ class _RotateLoops(ast.NodeTransformer):
     The priming-read form of a loop and the test-in-the-middle form run the same statements in the same
     order; the second keeps what `E` established in scope of `B`, which is what the path rules read."""
 
+    @staticmethod
+    def _iter_next(a, b, w):
+        """it = iter(X); x = next(it, None); while x is not None: B; x = next(it, None)   ==   for x in X: B
+        (for containers that hold no None: what the registries hold are request objects).  The For node, or None."""
+        def is_next(st, it_name, x_name):
+            return (isinstance(st, ast.Assign) and len(st.targets) == 1 and isinstance(st.targets[0], ast.Name) and st.targets[0].id == x_name
+                    and isinstance(st.value, ast.Call) and isinstance(st.value.func, ast.Name) and st.value.func.id == "next"
+                    and len(st.value.args) == 2 and isinstance(st.value.args[0], ast.Name) and st.value.args[0].id == it_name
+                    and isinstance(st.value.args[1], ast.Constant) and st.value.args[1].value is None)
+        if not (isinstance(a, ast.Assign) and len(a.targets) == 1 and isinstance(a.targets[0], ast.Name) and isinstance(a.value, ast.Call)
+                and isinstance(a.value.func, ast.Name) and a.value.func.id == "iter" and len(a.value.args) == 1 and not a.value.keywords):
+            return None
+        it_name = a.targets[0].id
+        if not (isinstance(b, ast.Assign) and len(b.targets) == 1 and isinstance(b.targets[0], ast.Name)):
+            return None
+        x_name = b.targets[0].id
+        t = w.test
+        if not (is_next(b, it_name, x_name) and isinstance(w, ast.While) and not w.orelse and len(w.body) >= 2 and is_next(w.body[-1], it_name, x_name)
+                and isinstance(t, ast.Compare) and len(t.ops) == 1 and isinstance(t.ops[0], ast.IsNot) and isinstance(t.left, ast.Name)
+                and t.left.id == x_name and isinstance(t.comparators[0], ast.Constant) and t.comparators[0].value is None):
+            return None
+        body = w.body[:-1]
+        if _has_continue(body) or any(isinstance(y, ast.Name) and y.id == it_name for st in body for y in ast.walk(st)):
+            return None
+        f = ast.For(target=ast.Name(id=x_name, ctx=ast.Store()), iter=a.value.args[0], body=body, orelse=[])
+        ast.copy_location(f, w)
+        ast.copy_location(f.target, w)
+        return f
+
     def _block(self, stmts):
         out = []
         for s in stmts:
             prev = out[-1] if out else None
+            if isinstance(s, ast.While) and len(out) >= 2:
+                f_ = self._iter_next(out[-2], out[-1], s)
+                if f_ is not None:
+                    out.pop()
+                    out.pop()
+                    out.append(f_)
+                    continue
             if (isinstance(s, ast.While) and not s.orelse and isinstance(prev, ast.Assign) and s.body
                     and isinstance(s.body[-1], ast.Assign) and len(s.body) > 1
                     and ast.dump(prev) == ast.dump(s.body[-1]) and not _has_continue(s.body)
@@ -353,14 +389,31 @@ class Program:
             return got
         alarm, loop, mutable, interval = set(), set(), set(), set()
 
+        # helpers that hand back the handle they create (`def _later(self, delay, fn, *args): return self.callLater(delay, fn, *args)`):
+        # calling one yields a handle of the same kind
+        makers = {"callLater": "alarm", "LoopingCall": "loop"}
+        for _round in range(3):
+            for g in self.funcs.values():
+                if g.name in makers:
+                    continue
+                rets = [x.value for x in ast.walk(g.node) if isinstance(x, ast.Return) and x.value is not None]
+                ks = set()
+                for rv in rets:
+                    if isinstance(rv, ast.Call):
+                        fn_ = rv.func
+                        nm_ = fn_.attr if isinstance(fn_, ast.Attribute) else (fn_.id if isinstance(fn_, ast.Name) else "")
+                        ks.add(makers.get(nm_))
+                    else:
+                        ks.add(None)
+                if rets and len(ks) == 1 and None not in ks:
+                    makers[g.name] = ks.pop()
+
         def kind_of(v, local_kinds):
             if isinstance(v, ast.Call):
                 f = v.func
                 nm = f.attr if isinstance(f, ast.Attribute) else (f.id if isinstance(f, ast.Name) else "")
-                if nm == "callLater":
-                    return "alarm"
-                if nm == "LoopingCall":
-                    return "loop"
+                if nm in makers:
+                    return makers[nm]
             if isinstance(v, ast.Name):
                 return local_kinds.get(v.id)
             return None
@@ -381,23 +434,28 @@ class Program:
                             if isinstance(m, (ast.Assign, ast.AugAssign)) and any(
                                     isinstance(t, ast.Name) and t.id == n.args[0].id for t in (m.targets if isinstance(m, ast.Assign) else [m.target])):
                                 delay_roots.append(m.value)
-            # the delay handed down as a parameter (a small "arm the timer" helper): what the callers pass
-            for n in list(delay_roots):
-                if isinstance(n, ast.Name) and n.id in f.params:
-                    idx = f.params.index(n.id) - (1 if f.params and f.params[0] == "self" else 0)
-                    for g in self.funcs.values():
-                        for c in ast.walk(g.node):
-                            if isinstance(c, ast.Call) and (isinstance(c.func, ast.Attribute) and c.func.attr == f.name
-                                                            or isinstance(c.func, ast.Name) and c.func.id == f.name):
-                                arg = c.args[idx] if 0 <= idx < len(c.args) else next((k.value for k in c.keywords if k.arg == n.id), None)
-                                if arg is None:
-                                    continue
-                                delay_roots.append(arg)
-                                if isinstance(arg, ast.Name):
-                                    for m in ast.walk(g.node):
-                                        if isinstance(m, (ast.Assign, ast.AugAssign)) and any(
-                                                isinstance(t, ast.Name) and t.id == arg.id for t in (m.targets if isinstance(m, ast.Assign) else [m.target])):
-                                            delay_roots.append(m.value)
+            # the delay handed down as a parameter (a small "arm the timer" helper, possibly through another one: _rearm(request, delay,
+            # cb) -> _later(delay, fn, *args) -> callLater): what the callers pass, followed up to three levels
+            work = [(f, n, 0) for n in delay_roots]
+            while work:
+                hf, n, depth = work.pop()
+                if not (isinstance(n, ast.Name) and n.id in hf.params) or depth >= 3:
+                    continue
+                idx = hf.params.index(n.id) - (1 if hf.params and hf.params[0] == "self" else 0)
+                for g in self.funcs.values():
+                    for c in ast.walk(g.node):
+                        if isinstance(c, ast.Call) and (isinstance(c.func, ast.Attribute) and c.func.attr == hf.name
+                                                        or isinstance(c.func, ast.Name) and c.func.id == hf.name):
+                            arg = c.args[idx] if 0 <= idx < len(c.args) else next((k.value for k in c.keywords if k.arg == n.id), None)
+                            if arg is None:
+                                continue
+                            delay_roots.append(arg)
+                            work.append((g, arg, depth + 1))
+                            if isinstance(arg, ast.Name):
+                                for m in ast.walk(g.node):
+                                    if isinstance(m, (ast.Assign, ast.AugAssign)) and any(
+                                            isinstance(t, ast.Name) and t.id == arg.id for t in (m.targets if isinstance(m, ast.Assign) else [m.target])):
+                                        delay_roots.append(m.value)
             for root in delay_roots:
                 for c in ast.walk(root):
                     if isinstance(c, ast.Call):
